@@ -13,8 +13,8 @@ Spaces (E2, real dictionaries, reference interpreter in lock-step):
     dict) x every initial `hy` state (absent / the hy module / a sentinel /
     a falsy value) of every dictionary the shape uses x {with user
     variables, truly empty}.
-(b) histories: every sequence of <= k calls over (shape x 13 program/fault
-    operations) on shared dictionaries, for every initial absent/sentinel
+(b) histories: every sequence of <= k calls over (shape x 13 (depth 2) or
+    8 (depth 3) program/fault operations) on shared dictionaries, for every initial absent/sentinel
     configuration of the three dictionaries, with <= 2 injected failures.
 
 Oracle after EVERY call: outcome (value of the last form / exception class)
@@ -52,21 +52,22 @@ STMTS = ["c", "sx", "ix", "rx", "sy", "sh", "dh", "rh", "uh", "t", "r", "ce", "g
 
 # history alphabet: (statements, rendering, fault set)
 HPROGS = [
-    (["sx", "t", "rx"], "many", []), (["sx", "t", "rx"], "many", [1]),
-    (["sh", "t", "c"], "many", []), (["sh", "t", "c"], "do", [1]),
+    (["sx", "t", "rx"], "many", []), (["sh", "t", "c"], "do", [1]),
     (["dh", "t", "c"], "many", []), (["dh", "t", "c"], "many", [1]),
     (["ix", "rx"], "do", []),
     (["sx", "sh", "r"], "many", []),
-    (["sx", "ce"], "many", []),
     (["sx", "re"], "many", []),
     (["uh"], "many", []),
+    # quick tier (depth 2) also uses:
+    (["sx", "t", "rx"], "many", [1]), (["sh", "t", "c"], "many", []),
+    (["sx", "ce"], "many", []),
     (["t", "sh", "t", "c"], "many", [2]),
     (["sy", "dh"], "many", []),
 ]
 
 BOUNDS = {
-    "quick": dict(prog_len=2, depth=2, total_faults=2, graph_depth=3, hy_states_hist=["A", "S"]),
-    "thorough": dict(prog_len=3, depth=3, total_faults=2, graph_depth=5, hy_states_hist=["A", "S"]),
+    "quick": dict(prog_len=2, depth=2, total_faults=2, graph_depth=3, hy_states_hist=["A", "S"], hprogs=13),
+    "thorough": dict(prog_len=3, depth=3, total_faults=2, graph_depth=4, hy_states_hist=["A", "S"], hprogs=8),
 }
 TIME_CAP = {"quick": 600, "thorough": 3600}
 
@@ -76,7 +77,8 @@ def bounds(tier):
     b = BOUNDS[tier]
     return {"statements": {k: H.STATEMENTS[k] for k in STMTS + ["re"]}, "max_program_statements": b["prog_len"],
             "renderings": ["many (hy.read_many Lazy)", "do"], "call_shapes": H.GIVEN, "initial_hy_states": H.HY_STATES,
-            "history_operations": [[" ".join(H.STATEMENTS[s] for s in p), r, f] for p, r, f in HPROGS],
+            "history_operations": [[" ".join(H.STATEMENTS[s] for s in p), r, f] for p, r, f in HPROGS[:b["hprogs"]]],
+            "all_history_operations_to_length": BOUNDS["quick"]["depth"],
             "max_history_length": b["depth"], "history_initial_hy_states": b["hy_states_hist"], "max_failures_per_history": b["total_faults"],
             "state_graph_search_depth": b["graph_depth"]}
 
@@ -131,9 +133,10 @@ class Ctx:
 class EvalSystem:
     """op = [shape, statements, rendering, fault set]"""
 
-    def __init__(self, cfg, bare, ops, total_faults, acc):
+    def __init__(self, cfg, bare, ops, total_faults, acc, only_after=None):
         from mc.ref import hs_eval as H
         self.H = H
+        self.only_after = only_after      # (core programs, extra ops): after a history of core programs only, enable just the extra ops
         self.cfg = {"hy": cfg, "bare": bare}
         self.ops = ops
         self.total_faults = total_faults
@@ -144,6 +147,7 @@ class EvalSystem:
         ctx = Ctx()
         ctx.env = self.H.Env(self.cfg)
         ctx.spent = 0
+        ctx.all_core = True
         ctx.touched = {}
         ctx.nontrivial = False
         ctx.last = None
@@ -151,7 +155,10 @@ class EvalSystem:
 
     def enabled(self, ctx, d):
         left = self.total_faults - ctx.spent
-        return [op for op in self.ops if len(op[3]) <= left]
+        ops = self.ops
+        if self.only_after is not None and ctx.all_core:
+            ops = self.only_after[1]
+        return [op for op in ops if len(op[3]) <= left]
 
     def canon(self, ctx):
         return (ctx.env.canon(), ctx.spent)
@@ -163,6 +170,8 @@ class EvalSystem:
         H = self.H
         env = ctx.env
         shape, stmts, render, faults = op
+        if self.only_after is not None and [stmts, render, faults] not in self.only_after[0]:
+            ctx.all_core = False
         before = {d: env.real[d].get("hy", H.ABSENT) for d in "GLM"}
         before_lab = {d: env.hy_label(before[d]) for d in "GLM"}
         ref_out, rticks, rfired, unspec, out_unspec = H.call_ref(env, shape, stmts, render, faults)
@@ -256,8 +265,9 @@ def _same(a, b):
     return type(a) is type(b) and a == b
 
 
-def _hist_ops():
-    return [[shape, p, r, f] for shape in SHAPES for p, r, f in HPROGS]
+def _hist_ops(tier, lo=0, hi=None):
+    hi = BOUNDS[tier]["hprogs"] if hi is None else hi
+    return [[shape, p, r, f] for shape in SHAPES for p, r, f in HPROGS[lo:hi]]
 
 
 def _on_problem(acc, cfg, bare):
@@ -268,10 +278,16 @@ def _on_problem(acc, cfg, bare):
     return f
 
 
-def _explore(acc, tier, cfg, roots, prune, depth, count_states):
+def _explore(acc, tier, cfg, roots, prune, depth, count_states, wide=False):
     from mc import hist
     b = BOUNDS[tier]
-    system = EvalSystem(cfg, False, _hist_ops(), b["total_faults"], acc)
+    if wide:
+        # all 13 programs, but only the histories not already covered by the deeper search over the first `hprogs`
+        core = [[p, r, f] for p, r, f in HPROGS[:b["hprogs"]]]
+        system = EvalSystem(cfg, False, _hist_ops(tier, 0, len(HPROGS)), b["total_faults"], acc,
+                            only_after=(core, _hist_ops(tier, b["hprogs"], len(HPROGS))))
+    else:
+        system = EvalSystem(cfg, False, _hist_ops(tier), b["total_faults"], acc)
     ex = hist.Explorer(system, depth, prune=prune, on_problem=_on_problem(acc, cfg, False),
                        on_history=lambda h, ctx: acc.outcome(system.outcome(ctx)))
     st = ex.run(roots)
@@ -321,8 +337,12 @@ def run_shard(shard, tier):
     if shard[0] == "graph":
         _explore(acc, tier, shard[1], ((),), True, b["graph_depth"], True)
     elif shard[0] == "hist":
-        roots = [(op,) for op in _hist_ops() if op[0] == shard[2]]
+        roots = [(op,) for op in _hist_ops(tier) if op[0] == shard[2]]
         _explore(acc, tier, shard[1], roots, False, b["depth"], False)
+        if b["hprogs"] < len(HPROGS):
+            # the remaining programs, to the depth of the quick tier (so that thorough covers a superset of quick)
+            roots = [(op,) for op in _hist_ops(tier, 0, len(HPROGS)) if op[0] == shard[2]]
+            _explore(acc, tier, shard[1], roots, False, BOUNDS["quick"]["depth"], False, wide=True)
     else:
         _single_shard(acc, tier, shard[1], shard[2], shard[3])
     return acc.result()
